@@ -1,6 +1,7 @@
 """Implementation side of the correspondence: build real Node trees from the
 JSON tree terms of the line protocol, run the real code, canonicalise."""
-import json
+import json, logging
+logging.disable(logging.CRITICAL)
 from metapype.model.node import Node
 from metapype.eml import validate, rule as rulemod
 from metapype.eml.exceptions import (MetapypeRuleError, ChildNotAllowedError, MaxOccurrenceExceededError,
